@@ -1,6 +1,7 @@
 import Csproto.Props.C01
 import Csproto.Bridge.Facts
 import Csproto.Bridge.WireFuncs
+import Csproto.Bridge.WireFuncs2
 /- axiom audit for C01: parsed by ./check; every line must list only propext / Classical.choice / Quot.sound -/
 open Csproto
 #print axioms C01.sizeOfVarint_exact
@@ -36,3 +37,16 @@ open Csproto
 #print axioms Csproto.Bridge.WireFuncs.DecodeFixed64_ok
 #print axioms Csproto.Bridge.WireFuncs.DecodeFixed64_short
 #print axioms Csproto.Bridge.WireFuncs.translated_varint_roundtrip
+
+-- second batch of TRANSLATED primitives (functions that call other translated functions): Bridge/WireFuncs2.lean
+#print axioms Csproto.Bridge.WireFuncs.EncodeTag_ok
+#print axioms Csproto.Bridge.WireFuncs.EncodeTag_short
+#print axioms Csproto.Bridge.WireFuncs.EncodeZigZag32_ok
+#print axioms Csproto.Bridge.WireFuncs.EncodeZigZag32_short
+#print axioms Csproto.Bridge.WireFuncs.EncodeZigZag64_ok
+#print axioms Csproto.Bridge.WireFuncs.EncodeZigZag64_short
+#print axioms Csproto.Bridge.WireFuncs.DecodeZigZag32_eq
+#print axioms Csproto.Bridge.WireFuncs.DecodeZigZag64_eq
+#print axioms Csproto.Bridge.WireFuncs.translated_zigzag64_roundtrip
+#print axioms Csproto.Bridge.WireFuncs.translated_zigzag32_roundtrip
+#print axioms Csproto.Bridge.WireFuncs.translated_tag_roundtrip
